@@ -293,7 +293,7 @@ _register_dynamic_typespecs()
 
 SPEC_KEYS = ["var", "emptytype", "fulltype", "generic-modproc", "generic-bodies", "operator", "assignment", "abstract", "explicit",
              "enum", "common", "namelist", "enum-expr", "namelist2"]
-PROC_KEYS = ["sub", "fn", "fn-result", "sub-internal", "fn-typed", "fn-result-attrs", "fn-name-attrs", "fn-typed-attrs"]
+PROC_KEYS = ["sub", "fn", "fn-result", "sub-internal", "fn-typed", "fn-result-attrs", "fn-name-attrs", "fn-typed-attrs", "fn-typed-charkind"]
 
 
 def proc_alphabet(i):
@@ -312,6 +312,8 @@ def proc_alphabet(i):
         # type in the prefix, attributes of the result in statements of their own, next to an implicitly typed dummy argument
         "fn-typed-attrs": lambda: Proc("function", f"pa{s}", args=["k", Var("a", "integer")], rettype="real", result_attrs=["dimension", "target"],
                                        body=[f"pa{s} = a + k"]),
+        # a character literal in the type written in the prefix
+        "fn-typed-charkind": lambda: Proc("function", f"pc{s}", args=[Var("a", "integer")], rettype="charkindlit", result=f"rc{s}", body=[f"rc{s} = 'abc'"]),
         "fn-typed": lambda: Proc("function", f"pt{s}", args=[Var("a", "integer"), Var("b", "integer", ["optional"])], rettype="realdp",
                                  prefixes=["elemental"], body=[f"pt{s} = a"]),
     }
